@@ -756,8 +756,12 @@ impl Duration {
                     return Err(TemporalError::range());
                 }
                 // c. Let internalDuration be ToInternalDurationRecordWith24HourDays(duration).
+                let internal_time = self
+                    .time
+                    .to_normalized()
+                    .add_days(self.days().as_integer_if_integral()?)?;
                 // d. Let total be TotalTimeDuration(internalDuration.[[Time]], unit).
-                let total = self.time.to_normalized().total(unit)?;
+                let total = internal_time.total(unit)?;
                 Ok(total)
             }
         }
